@@ -31,7 +31,7 @@ THEOREMS = [
     'prefix_model_violates_exactly_one', 'unbound_witness', 'unexport_witness', 'table_shape',
     'deferred_after_unexport_one_reply', 'deferred_after_unexport_witness', 'builtin_reply', 'builtin_witness',
     'properties_call_reply_is_c17', 'properties_get_error_exact', 'properties_lookup_errors', 'builtin_table_shape',
-    'properties_witness',
+    'properties_witness', 'empty_interface_name_binding', 'empty_name_witness',
 ]
 TRUSTED_BASE = [
     'Python attribute lookup along __mro__, dict order of class __dict__, inspect.getfullargspec, '
@@ -197,6 +197,10 @@ def gen_decls(rng, rich=False, props=None):
         for m in rng.sample(MEMBERS, rng.randrange(1, 4)):
             ms.append([m, rng.choice(SIGS), rng.choice(SIGS)])
         ifaces.append({'name': name, 'methods': ms})
+    if not rich and rng.random() < 0.05:
+        # `DBusInterface('', ...)`: an interface without a name (reachable only by calls that name no interface);
+        # functions cannot be decorated for it by name - `_searchCache` then looks through every interface's functions
+        ifaces[rng.randrange(len(ifaces))]['name'] = ''
     classes = []
     fid = [0]
 
@@ -363,6 +367,8 @@ def gen_call(rng, decls, builtin_bias=0.10):
         sig_in = rng.choice(SIGS)
     if rng.random() < 0.15:
         sig_in = rng.choice(SIGS)
+    if iface == '':
+        iface = None        # an interface without a name cannot be named in a call (the message constructor refuses '')
     body = gen_value(rng, sig_in)
     sig = sig_in if sig_in != '' else rng.choice([None, None, ''])
     sender = rng.choice([':1.7', ':1.7', ':1.42', 'org.caller', None])
@@ -878,6 +884,11 @@ def expected_of(built, op):
     iname, (sig_in, sig_out) = cands[0]
     if (op['sig'] or '') != sig_in:
         return {'v': 'invalid-args'}
+    if iname == '':
+        # an interface without a name: what "the implementation bound to path, interface and member" is, the statement
+        # does not say (no function can name it in @dbusMethod); only the tie-break-free rules are applied by the
+        # monitor - the model (spec `decoratedAnyIn`) is still compared with the code
+        return {'v': 'ambiguous', 'why': NAMELESS, 'fids': None, 'sig_out': sig_out}
     fs = binding_candidates(obj, iname, op['member'])
     if not fs:
         return {'v': 'unbound', 'sig_out': sig_out}
@@ -889,6 +900,8 @@ def expected_of(built, op):
             'sig_out': sig_out, 'iface': iname,
             'style': 'decorator' if deco_of(f) is not None else 'dbus_name'}
 
+
+NAMELESS = 'interface without a name'
 
 LOOKUP_ERRORS = {'unknown-object': 'org.freedesktop.DBus.Error.UnknownObject',
                  'unknown-method': 'org.freedesktop.DBus.Error.UnknownMethod',
@@ -1681,7 +1694,7 @@ def judge(ctx, stream, sc, model_out=None):
                 if tcr is not None and getattr(tcr, 'caller_rule_open', False):
                     ctx.stat('caller rule for a keyword-only dbusCaller differs from the model')
                     continue
-                if tcr is not None and tcr.exp['v'] == 'ambiguous':
+                if tcr is not None and tcr.exp['v'] == 'ambiguous' and tcr.exp['why'] != NAMELESS:
                     # the statement leaves the tie-break open; the model mirrors the code's present
                     # choice, another choice is not a broken obligation
                     ctx.stat('tie-break differs from the model (%s)' % tcr.exp['why'])
